@@ -80,7 +80,9 @@ func evalProgram(vm *r.VM, program *syntax.Program, varInputs r.ElementMap) (r.E
 
 			// match name from idList and append the value from varInputMap
 			if elem, ok := varInputs[inputNameStr]; ok {
-				paramList = append(paramList, elem)
+				// the execution works on its own copy: a program that changes an input in
+				// place must not change what the host hands to its next execution
+				paramList = append(paramList, value.DuplicateValue(elem))
 			} else {
 				return nil, zerr.InputValueNotFound(inputNameStr)
 			}
